@@ -37,6 +37,20 @@ def obligations(ctx, tier):
             T = T_(A)
             for ty in ("f32", "f64"):
                 out.append(core.f_row(K, PROP, tr(A, TP, [], "to_" + ty), some(call("<%s as cast::CastFrom<%s>>::cast_from" % (ty, T), P(0)))))
+                # the value itself: the nearest float (ties to even) of the integer, on the rounding representatives of C14
+                def exf_(W, env, A=A, ty=ty):
+                    v = env[0].v
+                    bits = c14.round_to_float(abs(v), ty)
+                    if v < 0:
+                        bits |= 1 << (31 if ty == "f32" else 63)
+                    return ("some", FL(ty, bits))
+                repsf = []
+                for j in range(110):
+                    def envf_(W, j=j, A=A, ty=ty):
+                        iv = c14.int_values(W, A, ty)
+                        return {0: W.wrap(A, iv[j % len(iv)])}
+                    repsf.append(("%s_int%d" % (ty, j), envf_, exf_))
+                out += core.g_row(K, PROP, tr(A, TP, [], "to_" + ty), repsf)
             if sg:
                 for ty, b in UP.items():
                     def ex(W, env, ty=ty, b=b):
